@@ -175,10 +175,12 @@ def chunk_invariants(ctx):
         raise AnalysisError("C05.4 matched %d stream methods" % n)
     ch = ctx.repo.func(REL, "HTMLUnicodeInputStream.char")
     src = " ".join(norm(ch.node).split())
-    r.check("C05.5", "if self.chunkOffset >= self.chunkSize: if not self.readChunk(): return EOF" in src, "char-refill", ch.where,
-            "char() does not refill exactly when the offset has reached the chunk size")
-    r.check("C05.5", "char = self.chunk[chunkOffset] self.chunkOffset = chunkOffset + 1" in src, "char-advance", ch.where,
-            "char() does not return the character at the offset and advance by one")
+    r.idiom("C05.5", "if self.chunkOffset >= self.chunkSize: if not self.readChunk(): return EOF" in src, "char-refill", ch.where,
+            "char() does not refill exactly when the offset has reached the chunk size",
+            wrong=[("if self.chunkOffset > self.chunkSize:" in src or "if self.chunkOffset == self.chunkSize + 1" in src, None)])
+    r.idiom("C05.5", "char = self.chunk[chunkOffset] self.chunkOffset = chunkOffset + 1" in src, "char-advance", ch.where,
+            "char() does not return the character at the offset and advance by one",
+            wrong=[("self.chunkOffset = chunkOffset + 2" in src or "self.chunk[chunkOffset + 1]" in src, None)])
     ug = ctx.repo.func(REL, "HTMLUnicodeInputStream.unget")
     cfg = CFG(ug.node)
     pre = [x for x in cfg.stmt_nodes() if x.kind == "stmt" and norm(x.ast) == "self.chunk = char + self.chunk"]
@@ -186,7 +188,8 @@ def chunk_invariants(ctx):
     at0 = lambda x, lab: x.kind == "test" and norm(x.ast) == "self.chunkOffset == 0" and lab is True  # noqa: E731
     not0 = lambda x, lab: x.kind == "test" and norm(x.ast) == "self.chunkOffset == 0" and lab is False  # noqa: E731
     ok = len(pre) == 1 and len(back) == 1 and cfg.dominated_by(pre[0], at0) and cfg.dominated_by(back[0], not0)
-    r.check("C05.5", ok, "unget-arms", ug.where, "unget() does not prepend at a chunk start and step back otherwise")
+    r.idiom("C05.5", ok, "unget-arms", ug.where, "unget() does not prepend at a chunk start and step back otherwise",
+            wrong=[(len(pre) == 1 and len(back) == 1 and not ok, None)])
 
 
 def thorough(ctx):
